@@ -350,6 +350,15 @@ def gen_range_lists(ctx):
         if N in NATIVE and N >= 16:
             # full-width byte swap (sum of lengths = storage width)
             fields.append(mk_field("fswap", "native", N, [(N - 8 * (i + 1), N - 8 * i - 1) for i in range(N // 8)]))
+        # lists of three or more pieces whose first start + total width = last end although the pieces are not simply adjacent
+        # in order ("this list is really one range" shortcuts must not be taken: seeded S105)
+        if N >= 24:
+            o = (N - 24) // 2
+            fields.append(mk_field("pm", int_kind(24), 24, [(o, o + 3), (o + 12, o + 19), (o + 4, o + 11), (o + 20, o + 23)]))
+            fields.append(mk_field("em", int_kind(12), 12, [(o, o + 3), (o + 16, o + 19), (o + 8, o + 11)]))
+            fields.append(mk_field("nb4", int_kind(4), 4, [(o + 4, o + 7)]))
+        if N >= 40:
+            fields.append(mk_field("pma", int_kind(6), 6, [(0, 1), (4, 5), (2, 3)], count=3, stride=8))
         # single-element list
         fields.append(mk_field("one", int_kind(min(N, 3)), min(N, 3), [(0, min(N, 3) - 1)], as_list=True))
         # lists with a repeated bit (getter statement only; setters are outside the guarantee)
@@ -416,7 +425,8 @@ def gen_bases(ctx):
     for N in range(1, 129):
         forms = [None, {"syntax": "=", "form": "lit", "value": 0}, {"syntax": "=", "form": "lit", "value": 2 ** N - 1},
                  {"syntax": ":", "form": "lit", "value": rng.randrange(2 ** N)},
-                 {"syntax": "=", "form": "const", "value": rng.randrange(2 ** N)}]
+                 {"syntax": "=", "form": "const", "value": rng.randrange(2 ** N)},
+                 {"syntax": ":", "form": "lit", "value": 2 ** N - 1}, {"syntax": "=", "form": "const", "value": 2 ** N - 1}]
         if ctx.tier != "thorough" and N not in BOUNDARY_BASES:
             forms = [None, forms[rng.randrange(1, 5)]]
         for dflt in forms:
@@ -474,6 +484,11 @@ def gen_enums(ctx):
         if n < 64:
             mk_enum(ctx, n, [0, 2 ** n], "false", inv, expect="invalid", rule="discriminant = 2^%d" % n)
             mk_enum(ctx, n, [1, 2 ** n + 1], None, inv, expect="invalid", rule="discriminant = 2^%d + 1" % n)
+    # cfg-gated variants are variants: their discriminants are bounded like the others, active or not (seeded S103)
+    for n in (2, 3, 9):
+        mk_enum(ctx, n, [0, 1, 2 ** n], "conditional", inv, expect="invalid", rule="cfg-active variant with discriminant 2^%d" % n, cfgs=[None, None, "on"])
+        mk_enum(ctx, n, [0, 2 ** n + 1, 1], "conditional", inv, expect="invalid", rule="cfg-inactive variant with discriminant 2^%d + 1" % n, cfgs=[None, "off", None])
+        mk_enum(ctx, n, [0, 1, 2 ** n - 1], "conditional", ["enums"], cfgs=[None, "off", "on"])
     mk_enum(ctx, 3, [0, 1, 7], "false", ["enums"])  # max discriminant 2^N - 1 is fine
     mk_enum(ctx, 3, [0, None, 2], "false", inv, expect="invalid", rule="missing discriminant")
     mk_enum(ctx, 3, [0, 1, 2], "false", inv, expect="invalid", rule="non-literal discriminant", discr_texts=["0", "1 + 1", "4"])
@@ -766,6 +781,28 @@ def gen_builder(ctx):
                 continue
             ra = mk_field("ra", "arb", k, [(b, b) for b in bits], count=cnt, stride=s)
             mk_bf(ctx, N, [ra], ["builder", "far-overlap"], default={"syntax": "=", "form": "lit", "value": 0})
+    # fields that are NOT writable never matter for the builder decision: a read-only / unspecified list naming a bit twice,
+    # a read-only list array whose elements collide (seeded S102)
+    for N in [b for b in bases if b >= 16]:
+        for acc in ("r", ""):
+            cmd = mk_field("cmd", int_kind(4), 4, [(0, 3)], access="w")
+            view = mk_field("view", "arb", 6, [(8, 11), (11, 11), (11, 11)], access=acc)
+            mk_bf(ctx, N, [cmd, view], ["builder", "builder-nonwritable"], default={"syntax": "=", "form": "lit", "value": 0x5A0})
+        cmd = mk_field("cmd", int_kind(4), 4, [(0, 3)], access="rw")
+        win = mk_field("win", "arb", 2, [(8, 8), (10, 10)], access="r", count=4, stride=1)
+        mk_bf(ctx, N, [cmd, win], ["builder", "builder-nonwritable"], default={"syntax": "=", "form": "lit", "value": 0xF00})
+    # a field as wide as a 128-bit base declared after / before another writable field (the 1 << 128 special case: seeded S100)
+    if 128 in bases:
+        for first in (True, False):
+            low = mk_field("low", "native", 8, [(0, 7)])
+            allf = mk_field("all", "native", 128, [(0, 127)])
+            mk_bf(ctx, 128, [low, allf] if first else [allf, low], ["builder", "builder-overlap"], default={"syntax": "=", "form": "lit", "value": 0})
+        mk_bf(ctx, 128, [mk_field("flag", "bool", 1, [(127, 127)], access="w"), mk_field("all", "native", 128, [(0, 127)])], ["builder", "builder-overlap"])
+        mk_bf(ctx, 128, [mk_field("ro", "native", 8, [(0, 7)], access="r"), mk_field("all", "signed", 128, [(0, 127)])], ["builder", "builder-complete"])
+        # a 128-bit base whose default has bits under a gap and under a read-only field (builder start value: seeded S101)
+        mk_bf(ctx, 128, [mk_field("b", "native", 8, [(0, 7)]), mk_field("arr", "arb", 4, [(16, 19)], count=4, stride=8),
+                         mk_field("w32", "native", 32, [(64, 95)]), mk_field("ready", "bool", 1, [(127, 127)], access="r")],
+              ["builder"], default={"syntax": "=", "form": "lit", "value": 0x8000_0000_0000_000F_0000_0000_0000_0100})
     # declared (read-only) fields cover the base but the default's bits under them must survive
     for N in [b for b in bases if b >= 8]:
         fs = [mk_field("lvl", int_kind(N // 2), N // 2, [(0, N // 2 - 1)]), mk_field("rev", int_kind(N - N // 2), N - N // 2, [(N // 2, N - 1)], access="r")]
@@ -928,6 +965,16 @@ def gen_invalid(ctx):
             bad(N, mk_field("wide", kind, n, [(0, n)]), "type narrower than range")
             if n >= 2:
                 bad(N, mk_field("narrow", kind, n, [(0, n - 2)]), "type wider than range")
+            # the same with a write-only / read-only field: rustc's type check of the generated getter must not be what
+            # rejects a wrong width (a setter alone type-checks: seeded S104)
+            for acc in ("w", "r"):
+                bad(N, mk_field("wide" + acc, kind, n, [(0, n)], access=acc), "type narrower than range (%s)" % acc)
+                if n >= 2:
+                    bad(N, mk_field("narrow" + acc, kind, n, [(0, n - 2)], access=acc), "type wider than range (%s)" % acc)
+        if N >= 16:
+            bad(N, mk_field("aw", "arb", 12, [(0, 7)], access="w"), "u12 over eight bits, write-only")
+            bad(N, mk_field("al", "arb", 5, [(0, 1), (4, 4)], access="w"), "u5 over a three-bit list, write-only")
+            bad(N, mk_field("aa", "arb", 3, [(0, 1)], access="w", count=2, stride=4), "[u3; 2] over two-bit elements, write-only")
         # bool over two bits / over a list
         if N >= 2:
             bad(N, mk_field("b2", "bool", 1, [(0, 1)]), "bool over two bits")
